@@ -357,6 +357,14 @@ BYTE_PREDICATES = {
     'is_ascii_punctuation': lambda b: 0x21 <= b <= 0x2f or 0x3a <= b <= 0x40 or 0x5b <= b <= 0x60 or 0x7b <= b <= 0x7e,
     'is_ascii_graphic': lambda b: 0x21 <= b <= 0x7e,
     'is_ascii': lambda b: b <= 0x7f,
+    # `char` predicates over a code point (Unicode general categories, as std documents them)
+    'is_numeric': lambda c: __import__('unicodedata').category(chr(c)) in ('Nd', 'Nl', 'No'),
+    'is_alphabetic': lambda c: chr(c).isalpha(),
+    'is_alphanumeric': lambda c: chr(c).isalpha() or __import__('unicodedata').category(chr(c)) in ('Nd', 'Nl', 'No'),
+    'is_whitespace': lambda c: chr(c).isspace() and c not in (0x1c, 0x1d, 0x1e, 0x1f),
+    'is_control': lambda c: __import__('unicodedata').category(chr(c)) == 'Cc',
+    'is_uppercase': lambda c: chr(c).isupper(),
+    'is_lowercase': lambda c: chr(c).islower(),
 }
 
 
@@ -477,6 +485,14 @@ class Interp:
             if 'init' not in e:
                 return ()               # `let x;` — bound by the first assignment
             v = self.val(e['init'], env)
+            if 'else' in e:
+                # `let PAT = v else { diverge };`
+                env2 = dict(env)
+                if self.matches(e['pat'], v, env2):
+                    env.update(env2)
+                    return ()
+                self.val(e['else'], env)
+                raise Unanalysable('the else block of a let-else did not diverge in evaluation')
             self.bind(e['pat'], v, env)
             return ()
         if k == 'semi':
@@ -791,7 +807,7 @@ class Interp:
                     if name == 'skip':
                         return ('iter', xs[args[0]:])
                     return opt(xs[args[0]] if 0 <= args[0] < len(xs) else None)
-                if len(args) == 1 and isinstance(args[0], tuple) and args[0] and args[0][0] == 'closure':
+                if len(args) == 1 and isinstance(args[0], tuple) and args[0] and args[0][0] in ('closure', 'recfn', 'ctor'):
                     c = args[0]
                     if name == 'filter':
                         return ('iter', [x for x in xs if truth(c, x)])
@@ -979,7 +995,10 @@ class Interp:
             body = self._workspace_method(e)
             if body is not None:
                 return self.apply_fn(body, [recv] + args)
-            if name in ('into', 'clone', 'to_owned'):
+            if isinstance(recv, str) and name in ('as_str', 'as_ref', 'deref', 'trim_matches') and not args:
+                return recv
+            if name in ('into', 'clone', 'to_owned', 'as_ref', 'as_mut', 'as_deref', 'as_deref_mut', 'borrow', 'borrow_mut', 'by_ref', 'copied', 'cloned', 'to_string', 'into_owned') and not args and \
+                    not (name == 'to_string' and not isinstance(recv, str)):
                 return recv
             if name == 'is_some':
                 return recv != ('ctor', 'core::option::Option::None')
@@ -1118,6 +1137,8 @@ class Interp:
                 if order[key] >= len(argv):
                     raise Unanalysable(f'format argument {key} has no value')
                 v = argv[order[key]]
+                while isinstance(v, tuple) and len(v) == 3 and v[0] == 'ctor' and v[1].startswith('alloc::borrow::Cow::') and len(v[2]) == 1:
+                    v = v[2][0]            # a Cow displays as what it holds
                 if spec == '':
                     if isinstance(v, bool):
                         out.append('true' if v else 'false')
@@ -1487,8 +1508,18 @@ class RecInterp(FxInterp):
         self.calls = []
         self.trace = []                     # (name, receiver value or None, [argument values]) in call order
 
+    def apply(self, clo, args):
+        if isinstance(clo, tuple) and len(clo) == 2 and clo[0] == 'recfn':
+            # a recorded method / function passed by name (`iter.for_each(Item::make_item)`)
+            self.calls.append((clo[1], list(args[1:])))
+            self.trace.append((clo[1], args[0] if args else None, list(args[1:])))
+            return ('rec', clo[1], args[0] if args else None, list(args[1:]))
+        return super().apply(clo, args)
+
     def val(self, e, env):
         k = e.get('k')
+        if k == 'path' and e.get('res') in ('Fn', 'AssocFn') and last_seg(e.get('path') or '') in (self.record | self.record_fns):
+            return ('recfn', last_seg(e['path']))
         if k == 'call':
             path = peel(e.get('f', {})).get('path') or ''
             if path in ('core::mem::replace', 'std::mem::replace', 'core::mem::swap', 'core::mem::take'):
